@@ -521,14 +521,18 @@ def importRenum (uid0 n : Nat) : List Trig → List Trig
   | [] => []
   | t :: ts => { t with uid := uid0, tid := n } :: importRenum (uid0 + 1) (n + 1) ts
 
-/-- `import_triggers(triggers, index)`, `index = none` is the default `-1`; returns the identities of the imported copies -/
-def importTriggers (tm : TM) (ts : List Trig) (index : Option Nat) : Except Err (TM × List Nat) :=
+/-- `import_triggers(triggers, index)`, `index = none` is the default `-1`; returns the identities of the imported copies.
+`ext = false`: the pinned `self.triggers += triggers` (goes through the `triggers` setter: display order reset to the
+identity, hash refreshed); `ext = true`: the repaired `self.triggers.extend(triggers)` (defect F5 of C09: the list is
+extended in place, the display order is left to the lazy getter). -/
+def importTriggers (ext : Bool) (tm : TM) (ts : List Trig) (index : Option Nat) : Except Err (TM × List Nat) :=
   let n := tm.trigs.length
   let d := changesFrom n ts
   let ts' := (importRenum tm.next n ts).map (fun t => { t with effs := t.effs.map (remapEffImport d) })
-  -- `self.triggers += triggers` goes through the setter: display order reset to the identity, hash refreshed
   let all := tm.trigs ++ ts'
-  let tm : TM := { trigs := all, order := List.range all.length, hashed := all.map (·.uid), next := tm.next + ts.length }
+  let tm : TM :=
+    if ext then { tm with trigs := all, next := tm.next + ts.length }
+    else { trigs := all, order := List.range all.length, hashed := all.map (·.uid), next := tm.next + ts.length }
   let news := ts'.map (·.uid)
   match index with
   | none => .ok (tm, news)
@@ -630,14 +634,15 @@ def addEff (tm : TM) (i : Nat) (e : Eff) : Except Err TM :=
   | none => .error .index
   | some t => .ok { tm with trigs := tm.trigs.set i { t with effs := t.effs ++ [e] } }
 
-/-- which of the two recorded defects are repaired in the modelled code (`⟨false, false⟩` = the pinned tree) -/
+/-- which of the recorded defects are repaired in the modelled code (`Fix.asIs` = the pinned tree) -/
 structure Fix where
   remove : Bool      -- F4: `remove_triggers` resets links to removed triggers
   tree : Bool        -- F15: the tree search lists every node once
+  importExt : Bool   -- F5 (C09): `import_triggers` extends the list in place (display order not reset)
   deriving DecidableEq, Repr
 
-def Fix.asIs : Fix := ⟨false, false⟩
-def Fix.all : Fix := ⟨true, true⟩
+def Fix.asIs : Fix := ⟨false, false, false⟩
+def Fix.all : Fix := ⟨true, true, true⟩
 
 def step (fx : Fix) (tm : TM) : Op → Except Err (TM × Ret)
   | .add => .ok (add tm, [(0, [tm.next])])
@@ -648,7 +653,7 @@ def step (fx : Fix) (tm : TM) : Op → Except Err (TM × Ret)
   | .copyPP s fromP players gaia =>
     (copyPerPlayer tm s fromP players gaia).map (fun r => (r.1, r.2.map (fun pc => (pc.1, [pc.2.uid]))))
   | .copyTreePP s fromP players gaia g => copyTreePerPlayer fx.tree tm s fromP players gaia g
-  | .importT ts index => (importTriggers tm ts index).map (fun r => (r.1, [(0, r.2)]))
+  | .importT ts index => (importTriggers fx.importExt tm ts index).map (fun r => (r.1, [(0, r.2)]))
   | .move ids k => (move tm ids k).map (fun tm => (tm, []))
   | .reorder o => (reorder tm o).map (fun tm => (tm, []))
   | .remove sels => (remove fx.remove tm sels).map (fun tm => (tm, []))
